@@ -29,6 +29,9 @@ from . import minissh as M
 from .minissh_selftest import Link
 
 CONN = b'ssh-connection'
+SK_ALG, SK_APP = b'sk-ssh-ed25519@openssh.com', b'ssh:'
+# the peer address the server connection sees: kind -> transport peername
+PEERS = {'ipv4': ('10.0.0.1', 40000), 'ipv6': ('fd00::1', 40000, 0, 0), 'none': None}
 PEER_ADDR = '10.0.0.1'            # what minissh_selftest._Transport reports as peername
 PROBE_HOST, PROBE_PORT = 'h1', 80
 SETTLE_ROUNDS = 40
@@ -52,6 +55,16 @@ class Pool:
             self.kid[name] = i + 1
             self.akey[name] = asyncssh.import_private_key(
                 p.private_bytes(Encoding.PEM, PrivateFormat.OpenSSH, NoEncryption()))
+        # a software stand-in for a FIDO token: an Ed25519 key producing sk-ssh-ed25519@openssh.com signatures
+        # with chosen flags (user presence or not)
+        seed = hashlib.sha256(b'c05-key:SK1').digest()
+        p = ed25519.Ed25519PrivateKey.from_private_bytes(seed)
+        raw = p.public_key().public_bytes(Encoding.Raw, PublicFormat.Raw)
+        self.KEYS = self.KEYS + ['SK1']
+        self.priv['SK1'] = p
+        self.blob['SK1'] = M.sstr(SK_ALG) + M.sstr(raw) + M.sstr(SK_APP)
+        self.kid['SK1'] = len(self.KEYS)
+        self.akey['SK1'] = asyncssh.import_public_key(SK_ALG + b' ' + base64.b64encode(self.blob['SK1']))
         self.kid_of_blob = {self.blob[n]: self.kid[n] for n in self.KEYS}
         now = int(time.time())
         self.now = now
@@ -68,6 +81,8 @@ class Pool:
             'C9': dict(key='K4', ca='CA1', principals=['alice', 'bob'], force='c9forced', fwd=False),
             'C10': dict(key='K5', ca='CA1', principals=[], after=now + 3600, before=now + 7200),
             'C11': dict(key='K3', ca='CA1', principals=['root']),
+            'CS1': dict(key='SK1', ca='CA1', principals=['alice']),
+            'CS2': dict(key='SK1', ca='CA1', principals=['alice'], no_touch=True),
         }
         self.cert_spec = specs
         self.cert_blob = {}
@@ -82,7 +97,8 @@ class Pool:
                                                  valid_before=before, force_command=sp.get('force'),
                                                  source_address=sp.get('src'),
                                                  permit_port_forwarding=sp.get('fwd', True),
-                                                 permit_pty=sp.get('pty', True))
+                                                 permit_pty=sp.get('pty', True),
+                                                 touch_required=not sp.get('no_touch'))
             self.cert_blob[name] = c.public_data
         self.garbage = M.sstr('ssh-ed25519') + M.sstr(b'\x01' * 7)
 
@@ -92,8 +108,9 @@ class Pool:
         return dict(key=self.kid[sp['key']], ca=self.kid[sp['ca']], is_user=not sp.get('host'),
                     after=sp.get('after', self.now - 86400), before=sp.get('before', self.now + 86400 * 365),
                     principals=list(sp['principals']),
-                    opts=dict(force=sp.get('force'), pty=sp.get('pty', True), fwd=sp.get('fwd', True)),
-                    src_ok=(src is None or src == ['10.0.0.0/24']))
+                    opts=dict(force=sp.get('force'), pty=sp.get('pty', True), fwd=sp.get('fwd', True),
+                              no_touch=bool(sp.get('no_touch'))),
+                    src=src)
 
     def blob_of(self, ref):
         if ref == 'garbage':
@@ -150,7 +167,25 @@ def is_utf8(b):
 # authorized_keys entries:  dict(key='K1'|'CA1', ca=bool, command=str|None, no_pty=bool, no_fwd=bool,
 #                                permitopen=[[host, port|None]], principals=[patternlist...], frm=None|'ok'|'bad')
 
-FROM_TEXT = {'ok': '10.0.0.*', 'bad': '192.168.*'}
+FROM_TEXT = {'ok': '10.0.0.*,fd00::*', 'bad': '192.168.*'}
+
+
+def from_result(frm, peer):
+    """what a from= / source-address check against the peer address must give: absent / ok / bad / raise
+    (no IP peer address: the check cannot be made, the restriction must not match)"""
+    if not frm:
+        return 'absent'
+    if peer == 'none':
+        return 'raise'
+    return frm
+
+
+def src_result(src, peer):
+    if src is None:
+        return 'absent'
+    if peer == 'none':
+        return 'raise'
+    return 'ok' if (src == ['10.0.0.0/24'] and peer == 'ipv4') else 'bad'
 
 
 def ak_line(e):
@@ -170,7 +205,10 @@ def ak_line(e):
         opts.append('principals="%s"' % pl)
     if e.get('frm'):
         opts.append('from="%s"' % FROM_TEXT[e['frm']])
-    line = 'ssh-ed25519 ' + base64.b64encode(p.blob[e['key']]).decode()
+    if e.get('no_touch'):
+        opts.append('no-touch-required')
+    line = ('sk-ssh-ed25519@openssh.com ' if e['key'] == 'SK1' else 'ssh-ed25519 ') + \
+        base64.b64encode(p.blob[e['key']]).decode()
     return (','.join(opts) + ' ' if opts else '') + line
 
 
@@ -201,7 +239,7 @@ def ak_object(entries):
 
 def default_world():
     return dict(needs_no_auth=['guest'], ak={}, ak_server=None, pw=[], chpw=[], kbd_cfg='no', kbd_chal={},
-                kbd_resp=[], cb_key=[], cb_ca=[], pw_supported=True, pk_cb_supported=False, installs={},
+                kbd_resp=[], cb_key=[], cb_ca=[], pw_supported=True, pk_cb_supported=False, installs={}, peer='ipv4',
                 **{'async': dict(begin=False, pw=False, key=False, ca=False, kbd=False)})
 
 
@@ -280,9 +318,17 @@ class Rd:
 
 
 def real_verify(keyname, data, sigblob):
+    """cryptographic validity only (the user-presence decision is sig_up + the touch table)"""
     try:
         r = Rd(sigblob)
         alg, sig = r.string(), r.string()
+        if keyname == 'SK1':
+            if alg != SK_ALG or r.i + 5 != len(sigblob):
+                return False
+            tail = sigblob[r.i:]
+            pool().priv[keyname].public_key().verify(
+                sig, hashlib.sha256(SK_APP).digest() + tail + hashlib.sha256(data).digest())
+            return True
         r.end()
         if alg != b'ssh-ed25519':
             return False
@@ -290,6 +336,19 @@ def real_verify(keyname, data, sigblob):
         return True
     except (ValueError, InvalidSignature):
         return False
+
+
+def sig_up(sigblob):
+    try:
+        r = Rd(sigblob)
+        r.string(), r.string()
+        return r.i < len(sigblob) and bool(sigblob[r.i] & 1)
+    except ValueError:
+        return False
+
+
+def sk_accepts(keyname, touch, sigblob):
+    return keyname != 'SK1' or not touch or sig_up(sigblob)
 
 
 def wpl_match(patlist, value):
@@ -307,9 +366,18 @@ def wpl_match(patlist, value):
     return pos and not neg
 
 
-def spec_ak_validate(entries, keyname, cert_principals, ca):
+RAISE = 'raise'
+
+
+def spec_ak_validate(entries, keyname, cert_principals, ca, peer='ipv4'):
+    """the matching entry, None, or RAISE (a from= restriction that cannot be checked: never a match)"""
     for e in entries or []:
-        if bool(e.get('ca')) != ca or e['key'] != keyname or e.get('frm') == 'bad':
+        if bool(e.get('ca')) != ca or e['key'] != keyname:
+            continue
+        fr = from_result(e.get('frm'), peer)
+        if fr == 'raise':
+            return RAISE
+        if fr == 'bad':
             continue
         if cert_principals is not None and not all(any(wpl_match(pl, pr) for pr in cert_principals)
                                                    for pl in e.get('principals', [])):
@@ -320,9 +388,10 @@ def spec_ak_validate(entries, keyname, cert_principals, ca):
 
 def kopts_of_entry(e):
     if e is None:
-        return dict(command=None, no_pty=False, no_fwd=False, permitopen=[], principals=[])
+        return dict(command=None, no_pty=False, no_fwd=False, permitopen=[], principals=[], no_touch=False)
     return dict(command=e.get('command'), no_pty=bool(e.get('no_pty')), no_fwd=bool(e.get('no_fwd')),
-                permitopen=[list(x) for x in e.get('permitopen', [])], principals=list(e.get('principals', [])))
+                permitopen=[list(x) for x in e.get('permitopen', [])], principals=list(e.get('principals', [])),
+                no_touch=bool(e.get('no_touch')))
 
 
 KEYNAME_OF_KID = None
@@ -378,26 +447,29 @@ def spec_eval_request(world, sid, src, U, full):
         r.end()
         kn, cn = keyname_of_blob(kb), certname_of_blob(kb)
         if kn is not None:
-            e = spec_ak_validate(akl, kn, None, False)
-            if e is None and [U, kn] not in [list(x) for x in world['cb_key']]:
+            e = spec_ak_validate(akl, kn, None, False, world.get('peer', 'ipv4'))
+            if e == RAISE or (e is None and [U, kn] not in [list(x) for x in world['cb_key']]):
                 return None
-            if not real_verify(kn, M.sstr(sid) + msg, sig):
+            ko = kopts_of_entry(e)
+            if not real_verify(kn, M.sstr(sid) + msg, sig) or not sk_accepts(kn, not ko['no_touch'], sig):
                 return None
-            return (kopts_of_entry(e), None)
+            return (ko, None)
         if cn is not None:
             c = pool().cert_record(cn)
             caname = pool().cert_spec[cn]['ca']
-            e = spec_ak_validate(akl, caname, c['principals'], True)
-            if e is None and [U, caname] not in [list(x) for x in world['cb_ca']]:
+            e = spec_ak_validate(akl, caname, c['principals'], True, world.get('peer', 'ipv4'))
+            if e == RAISE or (e is None and [U, caname] not in [list(x) for x in world['cb_ca']]):
                 return None
             ko = kopts_of_entry(e)
             if not c['is_user'] or not (c['after'] <= pool().now < c['before']):
                 return None
             if not ko['principals'] and c['principals'] and U not in c['principals']:
                 return None
-            if not c['src_ok']:
+            if src_result(c['src'], world.get('peer', 'ipv4')) in ('bad', 'raise'):
                 return None
-            if not real_verify(pool().cert_spec[cn]['key'], M.sstr(sid) + msg, sig):
+            ckn = pool().cert_spec[cn]['key']
+            if not real_verify(ckn, M.sstr(sid) + msg, sig) or \
+                    not sk_accepts(ckn, not (ko['no_touch'] and c['opts']['no_touch']), sig):
                 return None
             return (ko, dict(c['opts']))
         return None
@@ -529,7 +601,11 @@ def build_request(spec, sid, tb):
             tb.blobs[kb] = ('cert', spec['key'][5:])
         elif spec['key'] != 'garbage':
             tb.blobs[kb] = ('key', spec['key'])
-        alg = b'ssh-ed25519-cert-v01@openssh.com' if spec['key'].startswith('cert:') else b'ssh-ed25519'
+        base_key = p.cert_spec[spec['key'][5:]]['key'] if spec['key'].startswith('cert:') else spec['key']
+        if base_key == 'SK1':
+            alg = b'sk-ssh-ed25519-cert-v01@openssh.com' if spec['key'].startswith('cert:') else SK_ALG
+        else:
+            alg = b'ssh-ed25519-cert-v01@openssh.com' if spec['key'].startswith('cert:') else b'ssh-ed25519'
         body = (b'\1' if spec.get('signed') else b'\0') + M.sstr(alg) + M.sstr(kb)
         if spec.get('signed'):
             sg = spec.get('sig', {})
@@ -539,6 +615,20 @@ def build_request(spec, sid, tb):
             s_user = M.sstr(tb.text(name_bytes(sg['user']))) if sg.get('user') is not None else M.sstr(ub)
             s_svc = M.sstr(sg['service'].encode()) if sg.get('service') else M.sstr(svc)
             data = M.sstr(s_sid) + b'\x32' + s_user + s_svc + M.sstr(m) + body
+            if by == 'SK1':
+                # the token signs sha256(application) || flags || counter || sha256(data); flag bit 0 = user present
+                tail = bytes([1 if spec.get('up', True) else 0]) + M.u32(7)
+                raw = p.priv[by].sign(hashlib.sha256(SK_APP).digest() + tail + hashlib.sha256(data).digest())
+                if sg.get('flip'):
+                    raw = bytes([raw[0] ^ 1]) + raw[1:]
+                blob = M.sstr(SK_ALG) + M.sstr(raw) + tail
+                if not sg.get('flip'):
+                    tb.sigs.append((p.kid[by], data, blob))
+                body += M.sstr(blob)
+                full = b'\x32' + head + body
+                if spec.get('trunc'):
+                    full = full[:-spec['trunc']]
+                return full
             raw = p.priv[by].sign(data)
             if sg.get('flip'):
                 raw = bytes([raw[0] ^ 1]) + raw[1:]
@@ -782,6 +872,20 @@ def make_server_class(rt):
 # ---------------------------------------------------------------------------------------------------
 # running one case
 
+class PeerTransport(type(Link(M.MiniSSH('client')).transport)):
+    """the Link transport with a chosen peername: an IPv4 / IPv6 address, or none at all (what a UNIX-domain
+    socket or a tunnel without address reports)"""
+
+    def __init__(self, link, peername):
+        super().__init__(link)
+        self._peername = peername
+
+    def get_extra_info(self, name, default=None):
+        if name == 'peername':
+            return self._peername if self._peername is not None else default
+        return super().get_extra_info(name, default)
+
+
 class CaseResult:
     pass
 
@@ -848,6 +952,7 @@ async def run_case(world, ops=None, chooser=None, plan=None, probe=True):
     mini = M.MiniSSH('client', kex_algs=[b'curve25519-sha256'], enc_algs=[b'aes128-ctr'],
                      mac_algs=[b'hmac-sha2-256'], rng=det_rng)
     link = Link(mini)
+    link.transport = PeerTransport(link, PEERS[world.get('peer', 'ipv4')])
     acc = await asyncssh.listen('mem', 22, tunnel=link, server_factory=make_server_class(rt),
                                 server_host_keys=[pool().akey['CA2']], encoding=None,
                                 authorized_client_keys=ak_object(world['ak_server']))
@@ -1075,21 +1180,26 @@ def clist(xs, f):
 
 def c_kopts(e):
     ko = kopts_of_entry(e)
-    return '(mkKo %s %s %s %s %s)' % (
+    return '(mkKo %s %s %s %s %s %s)' % (
         copt(ko['command'], ctext), cbool(ko['no_pty']), cbool(ko['no_fwd']),
         clist(ko['permitopen'], lambda hp: '(%s, %s)' % (ctext(hp[0]), copt(hp[1], str))),
-        clist(ko['principals'], ctext))
+        clist(ko['principals'], ctext), cbool(ko['no_touch']))
 
 
-def c_entry(e):
-    return '(mkAe %d %s %s %s)' % (pool().kid[e['key']], cbool(bool(e.get('ca'))), c_kopts(e), cbool(e.get('frm') != 'bad'))
+C_FROM = {'absent': 'FrAbsent', 'ok': 'FrOk', 'bad': 'FrBad', 'raise': 'FrRaise'}
 
 
-def c_cert(name):
+def c_entry(e, peer='ipv4'):
+    return '(mkAe %d %s %s %s)' % (pool().kid[e['key']], cbool(bool(e.get('ca'))), c_kopts(e),
+                                   C_FROM[from_result(e.get('frm'), peer)])
+
+
+def c_cert(name, peer='ipv4'):
     c = pool().cert_record(name)
-    return '(mkCert %d %d %s %d %d %s (mkCo %s %s %s) %s)' % (
+    return '(mkCert %d %d %s %d %d %s (mkCo %s %s %s %s) %s)' % (
         c['key'], c['ca'], cbool(c['is_user']), c['after'], c['before'], clist(c['principals'], ctext),
-        copt(c['opts']['force'], ctext), cbool(c['opts']['pty']), cbool(c['opts']['fwd']), cbool(c['src_ok']))
+        copt(c['opts']['force'], ctext), cbool(c['opts']['pty']), cbool(c['opts']['fwd']), cbool(c['opts']['no_touch']),
+        C_FROM[src_result(c['src'], peer)])
 
 
 def c_pwres(r):
@@ -1102,17 +1212,18 @@ def c_kbdres(r):
 
 def c_tables(world, tb):
     p = pool()
+    peer = world.get('peer', 'ipv4')
     aks = [(None, world['ak_server'])] + [(u, es) for u, es in sorted(world['ak'].items())]
     blobs = []
     for b, (kind, name) in sorted(tb.blobs.items()):
-        blobs.append('(%s, %s)' % (hx(b), 'BKey %d' % p.kid[name] if kind == 'key' else 'BCert ' + c_cert(name)))
+        blobs.append('(%s, %s)' % (hx(b), 'BKey %d' % p.kid[name] if kind == 'key' else 'BCert ' + c_cert(name, peer)))
     a = world['async']
     noinst = sorted(u for u, v in world.get('installs', {}).items() if not v)
-    return ('(mkT %s %s %s %s %s %s %s %s %s %s %s %s %d %s %s %s (%s, %s, %s, %s, %s) %s)' % (
+    return ('(mkT %s %s %s %s %s %s %s %s %s %s %s %s %d %s %s %s (%s, %s, %s, %s, %s) %s [%d])' % (
         clist(sorted(tb.prep.items()), lambda kv: '(%s, %s)' % (hx(kv[0]), copt(kv[1], ctext))),
         clist(sorted(tb.badutf8), hx),
         clist(world['needs_no_auth'], ctext),
-        clist([x for x in aks if x[1] is not None], lambda ue: '(%s, %s)' % (copt(ue[0], ctext), clist(ue[1], c_entry))),
+        clist([x for x in aks if x[1] is not None], lambda ue: '(%s, %s)' % (copt(ue[0], ctext), clist(ue[1], lambda e: c_entry(e, peer)))),
         clist(world['pw'], lambda e: '(%s, %s, %s)' % (ctext(e[0]), ctext(e[1]), c_pwres(e[2]))),
         clist(world['chpw'], lambda e: '(%s, %s, %s, %s)' % (ctext(e[0]), ctext(e[1]), ctext(e[2]), c_pwres(e[3]))),
         clist(sorted(world['kbd_chal'].items()), lambda kv: '(%s, %s)' % (ctext(kv[0]), c_kbdres(kv[1]))),
@@ -1123,7 +1234,7 @@ def c_tables(world, tb):
         clist(tb.sigs, lambda e: '(%d, %s, %s)' % (e[0], hx(e[1]), hx(e[2]))),
         p.now, cbool(world['pw_supported']), {'yes': 'TYes', 'no': 'TNo', 'ni': 'TNotImpl'}[world['kbd_cfg']],
         cbool(world['pk_cb_supported']),
-        cbool(a['begin']), cbool(a['pw']), cbool(a['key']), cbool(a['ca']), cbool(a['kbd']), clist(noinst, ctext)))
+        cbool(a['begin']), cbool(a['pw']), cbool(a['key']), cbool(a['ca']), cbool(a['kbd']), clist(noinst, ctext), p.kid['SK1']))
 
 
 def c_reply(r):
